@@ -27,9 +27,10 @@ Section Cost.
   Variable init_state : res St.
   Variable terminate : nat -> nat -> option string.
   Variable ok : nat -> bool.
+  Hypothesis Hwf : wf_graph g.
   Hypothesis Hfr : forall e st prev, frontier e st prev = Ok (ok e).
   Hypothesis Htr : forall d e prev st, exists r, traverse d e prev st = Ok r.
-  Hypothesis Hest : forall a b st, exists c, estimate a b st = Ok c.
+  Hypothesis Hest : forall a b st, a < nverts g -> b < nverts g -> exists c, estimate a b st = Ok c.
   Hypothesis Hinit : exists i0, init_state = Ok i0.
 
   Definition le (a b : C) : Prop := clt b a = false.
@@ -43,6 +44,7 @@ Section Cost.
   Variable d : dir.
   Variable source : nat.
   Variable target : option nat.
+  Hypothesis Htin : forall t, target = Some t -> t < nverts g.
 
   Notation sstate := (sstate C St).
   Notation step := (step clt cadd czero cfloor g frontier traverse estimate terminate d source target).
@@ -76,7 +78,7 @@ Section Cost.
   Lemma step_K init s s' : Inv s -> K s -> step init s = Ok (inl s') -> K s'.
   Proof.
     intros HI HK Hst.
-    destruct (step_shape clt cadd czero cfloor g frontier traverse estimate terminate ok Hfr Htr Hest d source target init s s' HI Hst)
+    destruct (step_shape clt cadd czero cfloor g frontier traverse estimate terminate ok Hwf Hfr Htr Hest d source target Htin init s s' HI Hst)
       as (v&c&q'&le0&cur&s2&Hpop&_&Hra&->).
     apply (relaxed_all_K _ _ _ _ _ Hra HK).
   Qed.
@@ -188,7 +190,7 @@ Section Cost.
   Lemma step_LA init s s' : Inv s -> L s /\ A s -> step init s = Ok (inl s') -> L s' /\ A s'.
   Proof.
     intros HI [HL HA] Hst.
-    destruct (step_shape clt cadd czero cfloor g frontier traverse estimate terminate ok Hfr Htr Hest d source target init s s' HI Hst)
+    destruct (step_shape clt cadd czero cfloor g frontier traverse estimate terminate ok Hwf Hfr Htr Hest d source target Htin init s s' HI Hst)
       as (v&c&q'&le0&cur&s2&Hpop&_&Hra&->).
     split; [|apply (relaxed_all_A _ _ _ _ _ Hra HA)].
     destruct (pop_spec _ _ _ _ _ Hpop) as (Hin&Hsub&Hkeep).
@@ -246,9 +248,10 @@ Section NoTarget.
   Variable init_state : res St.
   Variable terminate : nat -> nat -> option string.
   Variable ok : nat -> bool.
+  Hypothesis Hwf : wf_graph g.
   Hypothesis Hfr : forall e st prev, frontier e st prev = Ok (ok e).
   Hypothesis Htr : forall d e prev st, exists r, traverse d e prev st = Ok r.
-  Hypothesis Hest : forall a b st, exists c, estimate a b st = Ok c.
+  Hypothesis Hest : forall a b st, a < nverts g -> b < nverts g -> exists c, estimate a b st = Ok c.
   Hypothesis Hinit : exists i0, init_state = Ok i0.
   Notation le := (le clt).
   Hypothesis Hasym : forall a b, clt a b = true -> clt b a = false.
@@ -271,10 +274,10 @@ Section NoTarget.
   Proof.
     intros Hinit0 Hstep. unfold Search.run_a_star_state. rewrite (src_ltb g source Hsrc). destruct Hinit as [i0 Hi]. rewrite Hi. simpl. intros Hrun.
     assert (Hts : forall t, @None nat = Some t -> t <> source) by discriminate.
-    pose proof (run_loop_inv_gen clt cadd czero cfloor g frontier traverse estimate terminate ok Hfr Htr Hest d source None P i0
+    pose proof (run_loop_inv_gen clt cadd czero cfloor g frontier traverse estimate terminate ok Hwf Hfr Htr Hest d source None (tgt_none g) P i0
                   (Hstep i0) fuel _ (init_inv czero g ok d source None czero Hts) (Hinit0 czero)) as H.
     cbv beta in H. rewrite Hrun in H. destruct H as (s0&HI&HP&Hst).
-    pose proof (step_spec clt cadd czero cfloor g frontier traverse estimate terminate ok Hfr Htr Hest d source None i0 s0 HI) as Hs.
+    pose proof (step_spec clt cadd czero cfloor g frontier traverse estimate terminate ok Hwf Hfr Htr Hest d source None (tgt_none g) i0 s0 HI) as Hs.
     rewrite Hst in Hs. destruct Hs as [(_&Hq&->)|(t&c&q'&Ht&_)]; [auto|discriminate].
   Qed.
 
@@ -284,7 +287,7 @@ Section NoTarget.
     intros Hrun.
     destruct (notarget_final (K clt czero source) fuel s) as (_&_&(K1&K2&_)); auto.
     - intros h0. apply K_init. exact Hasym.
-    - intros init s0 s' HI HK Hst. eapply (step_K clt cadd czero cfloor g frontier traverse estimate terminate ok Hfr Htr Hest); eauto.
+    - intros init s0 s' HI HK Hst. eapply (step_K clt cadd czero cfloor g frontier traverse estimate terminate ok Hwf Hfr Htr Hest); eauto using (tgt_none g).
   Qed.
 
   Theorem tree_is_reachable_set fuel tree it : run_a_star fuel d source None = Ok (tree, it) ->
@@ -319,7 +322,7 @@ Section NoTarget.
     destruct (notarget_final (fun s => L clt cadd g ok d ecost s /\ A cadd czero g ok d source ecost s) fuel s) as (HI&Hq&HL&HA); auto.
     - intros h0. apply LA_init.
     - intros init s0 s' HI0 HP Hst.
-      eapply (step_LA clt cadd czero cfloor g frontier traverse estimate terminate ok Hfr Htr Hest Hasym Hletrans d source None ecost Hloc); eauto.
+      eapply (step_LA clt cadd czero cfloor g frontier traverse estimate terminate ok Hwf Hfr Htr Hest Hasym Hletrans d source None (tgt_none g) ecost Hloc); eauto.
     - pose proof (exhaustion_closed g ok d source None s HI Hq v Hr) as [l Hl]. exists l. split; [exact Hl|]. split; [eapply HA, Hl|].
       intros es Hw.
       destruct (L_lower clt cadd g ok Hasym Hletrans d ecost Hmono s HL Hq _ _ _ Hw _ K1) as (lu&Hu&Hle).
